@@ -99,4 +99,28 @@ example : Descs2R.decoded exResBS =
     [("sid", .atom (.int 0x22)), ("st", .dict [("k", .atom (.int 9)), ("lo", .atom (.int 5)), ("hi", .atom (.int 0))]),
      ("z", .atom (.int 0x77))] := rfl
 
+/-! ### the wire condition in static form (overlapped RESERVED, NRC-CONST) -/
+
+/-- **C01, nested tier, RESERVED / NRC-CONST, wire condition stated on the PDU alone.**  As `C01_roundtrip_nested2R`, with `hres`
+    (a conjunction evaluated at the decoder states in which the nodes are reached) replaced by `Descs2R.resWire pdu ds 0 0`: every
+    RESERVED / NRC-CONST node, at its LAYOUT coordinates (origin / cursor as the layout `Lay2` moves them, to any depth of
+    STRUCTUREs), lies inside `pdu` and reads as its `r`.  Covers what `Descs2R.resFree` excludes: RESERVED parameters that ARE
+    overlapped (`r` = what the overlapping parameters wrote) and NRC-CONST parameters. -/
+theorem C01_roundtrip_nested2R_static_wire (ds : List Desc2R) (trig : Option Bytes) (hok : Descs2R.ok trig ds) (pdu : Bytes)
+    (hend : Comps.anyEop (Descs2R.comps ds) = true → Descs2R.endCursor ds = pdu.length)
+    (hw : Descs2R.resWire pdu ds 0 0)
+    (henc : encodeMessage none (Descs2R.params ds) (.dict (Descs2R.supplied ds)) trig true = .ok (pdu, 0)) :
+    decodeMessage none (Descs2R.params ds) pdu true = .ok (.dict (Descs2R.decoded ds), Descs2R.endCursor ds) :=
+  C01_roundtrip_nested2R ds trig hok pdu hend (Descs2R.resPre_of_static ds trig hok pdu henc hw) henc
+
+/-- `exResOverlap`: the RESERVED nibble at byte 1 bit 4 of `22 A3` reads as 10 -/
+example : decodeMessage none (Descs2R.params exResOverlap) [0x22, 0xA3] true = .ok (.dict (Descs2R.decoded exResOverlap), 2) :=
+  C01_roundtrip_nested2R_static_wire exResOverlap none exResOverlap_ok _ (fun h => by cases h)
+    ⟨trivial, ⟨by decide +kernel, by decide +kernel⟩, trivial, trivial, trivial⟩ exResOverlap_enc
+
+/-- `exNrcR`: the NRC-CONST at byte 2 of `7F 22 11` reads as 0x11 -/
+example : decodeMessage none (Descs2R.params exNrcR) [0x7F, 0x22, 0x11] true = .ok (.dict (Descs2R.decoded exNrcR), 3) :=
+  C01_roundtrip_nested2R_static_wire exNrcR (some exNrcRTrig) exNrcR_ok _ (fun h => by cases h)
+    ⟨trivial, trivial, ⟨⟨by decide +kernel, trivial⟩, by decide +kernel⟩, trivial, trivial⟩ exNrcR_enc
+
 end OdxVerif.Codec
